@@ -213,3 +213,12 @@ def drain_outlasts_the_target_timeout(stop=False):
     tail = [{"op": "resume", "id": "c3", "name": H(b"web")}] if stop else []
     return {"steps": [d1, req("r1", "stream:%d" % (2 * SEC)), req("r2", "delay:%d" % (3 * SEC // 2)), {"op": "sleep", "ns": SEC // 10}, cmd,
                       {"op": "sleep", "ns": 4 * SEC}] + tail + [req("r3"), {"op": "sleep", "ns": SEC}]}
+
+
+def redeploy_of_the_same_target_names(upgraded=False):
+    """the service is redeployed with the SAME target names (e.g. only its options change): the deploy builds new target objects
+    all the same, so the replaced ones are drained like any others - a request in flight on them is waited for (it ends within
+    the drain timeout), an upgraded connection is closed, before the command returns"""
+    d2 = dep("c2", [b"ta:80", b"tb:80"], drain=5 * SEC)
+    return {"steps": [dep("c1", [b"ta:80", b"tb:80"]), req("r1", "upgrade" if upgraded else "delay:%d" % (2 * SEC)),
+                      req("r2", "delay:%d" % (3 * SEC // 2)), {"op": "sleep", "ns": SEC // 10}, d2, req("r3"), {"op": "sleep", "ns": 3 * SEC}]}
